@@ -824,7 +824,7 @@ pub fn run_check(tier: &str) -> i32 {
         property: "C05",
         worker: "e2-c05",
         quick_runs: 4_000,
-        thorough_runs: 80_000,
+        thorough_runs: 400_000,
         level: "exploration",
         rule: "seeded sampling of the product executable name x argument count x buildpack.toml kind x presence of each CNB_* variable x buildpack behaviour x input files x pre-existing outputs, each executed as a real buildpack process; distinct = distinct (expected class, behaviour detail, exit status, handler count) cells; non-trivial = cells that reach past argument/descriptor validation or start with pre-existing outputs",
         assumptions: &[
